@@ -377,6 +377,8 @@ def _expand(mod, stmts, caller, depth, log):
                 call, kind = s.value, "expr"
             elif isinstance(s, ast.Assign) and len(s.targets) == 1 and isinstance(s.targets[0], ast.Name) and isinstance(s.value, ast.Call):
                 call, kind, target = s.value, "assign", s.targets[0].id
+            elif isinstance(s, ast.Assign) and len(s.targets) == 1 and isinstance(s.targets[0], (ast.Attribute, ast.Subscript)) and isinstance(s.value, ast.Call):
+                call, kind = s.value, "store"
             elif isinstance(s, ast.Return) and isinstance(s.value, ast.Call):
                 call, kind = s.value, "return"
             elif isinstance(s, ast.For) and isinstance(s.iter, ast.Call) and not s.orelse:
@@ -392,6 +394,8 @@ def _expand(mod, stmts, caller, depth, log):
                 body = _helper_body(mod, h, call, res, caller)
                 if kind == "return":
                     body.append(ast.copy_location(ast.Return(value=ast.Name(id=res, ctx=ast.Load())), s))
+                elif kind == "store":
+                    body.append(ast.copy_location(ast.Assign(targets=[_clone(s.targets[0])], value=ast.Name(id=res, ctx=ast.Load())), s))
             log.append(h.name)
             for b in body:
                 for n in ast.walk(b):
